@@ -362,6 +362,8 @@ class Recorder(object):
         def fn(mapper, connection, target):
             if self.cur is None or type(target) not in self.cidx:
                 return
+            if self.sa.orm.object_session(target) is not self.session:
+                return
             ci, colchg, relchg = self._flags(target)
             st = self.sa.inspect(target)
             cstate = []
@@ -441,6 +443,8 @@ class Recorder(object):
         self.trace.append(self.cur)
         self.cur = None
         self.snaps.append(self.snapshot())
+        if getattr(self, 'on_event', None):
+            self.on_event(self, self.trace[-1])
 
     # -- snapshots
     def snapshot(self):
